@@ -35,9 +35,11 @@ func c18GenRule(r *Rng, exotic bool) c18PRule {
 	names := []string{"a", "b", "c", "a", "b"}
 	urls := base
 	if exotic {
+		// values that are a proper prefix / extension of each other or differ in case only
+		base = append(append([]string{}, base...), "ab", "A")
 		res = append(append([]string{}, base...), "a/status", "*/status", "b/finalizers", "*/finalizers", "")
-		names = append(append([]string{}, names...), "*", "")
-		urls = append(append([]string{}, base...), "a*", "/a/*", "/a/b", "")
+		names = append(append([]string{}, names...), "*", "", "ab", "A")
+		urls = append(append([]string{}, base...), "a*", "/a/*", "/a/b", "/a", "/a/", "")
 	}
 	p := c18PRule{V: []string{}, G: []string{}, R: []string{}, N: []string{}, U: []string{}}
 	style := 0
@@ -49,13 +51,17 @@ func c18GenRule(r *Rng, exotic bool) c18PRule {
 	default:
 		style = 2
 	}
-	p.V = c18PickList(r, base, 2)
+	max := 2
+	if r.Chance(1, 8) {
+		max = 3
+	}
+	p.V = c18PickList(r, base, max)
 	if len(p.V) == 0 && r.Chance(3, 4) {
 		p.V = []string{Pick(r, base)}
 	}
 	if style == 0 || style == 2 {
-		p.G = c18PickList(r, base, 2)
-		p.R = c18PickList(r, res, 2)
+		p.G = c18PickList(r, base, max)
+		p.R = c18PickList(r, res, max)
 		if style == 0 {
 			if len(p.G) == 0 {
 				p.G = []string{Pick(r, base)}
@@ -65,11 +71,11 @@ func c18GenRule(r *Rng, exotic bool) c18PRule {
 			}
 		}
 		if r.Chance(1, 2) {
-			p.N = c18PickList(r, names, 2)
+			p.N = c18PickList(r, names, max)
 		}
 	}
 	if style == 1 || style == 2 {
-		p.U = c18PickList(r, urls, 2)
+		p.U = c18PickList(r, urls, max)
 		if style == 1 && len(p.U) == 0 {
 			p.U = []string{Pick(r, urls)}
 		}
@@ -130,9 +136,14 @@ func c18GenValidate(r *Rng) c18Scn {
 			}
 		}
 	}
-	if r.Chance(1, 3) {
-		s.Warm = true
-		s.WarmAllow = c18GenWarm(r, s.Allow, s.Requests)
+	if r.Chance(2, 5) {
+		s.Pre = c18GenPre(r, s.Allow, s.Requests, exotic)
+	}
+	if r.Chance(1, 12) {
+		s.Validator = "none" // VerySecureValidator: no allow-list configured
+	}
+	if r.Chance(1, 10) {
+		s.Ctx = "done"
 	}
 	p := r.Perm(len(s.Allow))
 	sh := make([]c18PRule, len(s.Allow))
@@ -143,11 +154,12 @@ func c18GenValidate(r *Rng) c18Scn {
 	return s
 }
 
-// c18GenWarm is an earlier content of the allow-list: usually wider than the current one
-// (it covered the requests), sometimes narrower or unrelated.
-func c18GenWarm(r *Rng, allow, reqs []c18PRule) []c18PRule {
+// c18GenEarlier is an earlier content of the allow-list: wider than the current one (it covered
+// the requests), the requests themselves, the current one with ONE rule edited in place (same
+// number of rules), narrower, or unrelated.
+func c18GenEarlier(r *Rng, allow, reqs []c18PRule) []c18PRule {
 	w := []c18PRule{}
-	switch r.Intn(4) {
+	switch r.Intn(6) {
 	case 0, 1:
 		w = append(w, allow...)
 		for _, q := range reqs {
@@ -157,10 +169,52 @@ func c18GenWarm(r *Rng, allow, reqs []c18PRule) []c18PRule {
 		for _, q := range reqs {
 			w = append(w, q)
 		}
+	case 3: // same length, one rule replaced by a widened request
+		w = append(w, allow...)
+		if len(w) > 0 && len(reqs) > 0 {
+			w[r.Intn(len(w))] = c18Widen(r, Pick(r, reqs))
+		} else {
+			for _, q := range reqs {
+				w = append(w, c18Widen(r, q))
+			}
+		}
+	case 4: // narrower
+		for _, a := range allow {
+			if r.Bool() {
+				w = append(w, a)
+			}
+		}
 	default:
 		w = c18GenRules(r, 2, false)
 	}
 	return w
+}
+
+// c18GenPre: 1-3 earlier validations by the same validator: the same or other requests, against
+// earlier contents of the role; the role gone in between; deleted and re-created.
+func c18GenPre(r *Rng, allow, reqs []c18PRule, exotic bool) []c18VStep {
+	out := []c18VStep{}
+	for i, n := 0, 1+r.Intn(3); i < n; i++ {
+		st := c18VStep{Requests: reqs}
+		if r.Chance(1, 3) { // another revision's requests
+			st.Requests = c18GenRules(r, 2, exotic)
+			if r.Bool() {
+				st.Requests = append(st.Requests, reqs...)
+			}
+		}
+		switch x := r.Intn(10); {
+		case x < 1:
+			st.Gone = true
+			st.Allow = []c18PRule{}
+		case x < 3:
+			st.Allow = append([]c18PRule{}, allow...) // same content: only the requests differ
+		default:
+			st.Allow = c18GenEarlier(r, allow, st.Requests)
+		}
+		st.Recreate = r.Chance(1, 5)
+		out = append(out, st)
+	}
+	return out
 }
 
 // ---------------------------------------------------------------- reconcile scenarios
@@ -178,7 +232,17 @@ var c18Pkgs = []string{
 	"acme", // no org segment: the repository itself
 	"UPPER/Case:bad",
 	"",
+	"xpkg.upbound.io/acm/provider-a:v1.0.0",            // the org is a proper prefix of the family's org
+	"xpkg.upbound.io.evil.example/acme/provider-a:v1",  // the registry has the family's registry as a prefix
+	"xpkg.upbound.io:443/acme/provider-a:v1.0.0",       // same host, explicit port: another registry string
+	"xpkg.upbound.io/acme/provider-a",                  // untagged
+	"xpkg.upbound.io/evil/acme/provider-a:v1.0.0",      // the family's org as SECOND path segment
+	"acme/",                                            // trailing separator: unparsable
 }
+
+// family labels: equal, a proper prefix / extension of each other, differing in case only
+var c18Families = []string{"fam-a", "fam-a", "fam-a", "fam-a", "fam-a", "fam-b", "fam-ab", "fam", "Fam-A", ""}
+
 
 var c18RefPool = []c18Ref{
 	{"apiextensions.k8s.io/v1", "CustomResourceDefinition", "widgets.acme.example.org"},
@@ -198,6 +262,11 @@ var c18RefPool = []c18Ref{
 	{"apiextensions.k8s.io/v1", "customresourcedefinition", "widgets.acme.example.org"},
 	{"/", "CustomResourceDefinition", "widgets.acme.example.org"},
 	{"apiextensions.k8s.io/", "CustomResourceDefinition", "slash.acme.example.org"},
+	{"apiextensions.k8s.io.evil/v1", "CustomResourceDefinition", "evilgroup.acme.example.org"},
+	{"apiextensions.crossplane.io/v1", "CustomResourceDefinition", "xpgroup.acme.example.org"},
+	{"ApiExtensions.k8s.io/v1", "CustomResourceDefinition", "casegroup.acme.example.org"},
+	{"apiextensions.k8s.io/v1", "CustomResourceDefinitionList", "listkind.acme.example.org"},
+	{"extensions.k8s.io/v1", "CustomResourceDefinition", "suffixgroup.acme.example.org"},
 }
 
 func c18GenRefs(r *Rng, max int, own string) []c18Ref {
@@ -209,18 +278,6 @@ func c18GenRefs(r *Rng, max int, own string) []c18Ref {
 			out = append(out, c18RefPool[r.Intn(7)])
 		} else {
 			out = append(out, Pick(r, c18RefPool))
-		}
-	}
-	return out
-}
-
-func c18GenFaults(r *Rng, maxK int) [][]c18Fault {
-	rounds := 1 + r.Intn(3)
-	out := make([][]c18Fault, rounds)
-	for i := range out {
-		out[i] = []c18Fault{}
-		if r.Chance(2, 5) {
-			out[i] = append(out[i], c18Fault{K: r.Intn(maxK), O: Pick(r, []string{"fail", "conflict", "crashBefore", "crashAfter"})})
 		}
 	}
 	return out
@@ -245,45 +302,236 @@ func c18GenPreRole(r *Rng, name, uid string) c18Role {
 	return role
 }
 
-func c18GenReconcile(r *Rng) c18Scn {
-	s := c18Scn{Kind: "reconcile", Target: "prov-a-r1"}
-	t := c18PR{Name: "prov-a-r1", UID: "uid-t", Pkg: c18Pkgs[r.Intn(3)]}
+// ---------------------------------------------------------------- rounds, other writers, cache, classes
+
+var c18PlanOutcomes = []string{"fail", "conflict", "crashBefore", "crashAfter"}
+
+// c18GenEvs draws the events of one round: per event a call index below maxK (hot lists the
+// indices where the interesting calls are expected) and one or two of: a fault-plan outcome,
+// an error class, edits of other writers, a stale / incomplete answer of the informer cache.
+func c18GenEvs(r *Rng, maxK int, hot []int, edits func() []c18Edit, names []string) []c18Ev {
+	n := 0
+	switch x := r.Intn(20); {
+	case x < 8:
+		n = 0
+	case x < 15:
+		n = 1
+	case x < 19:
+		n = 2
+	default:
+		n = 3
+	}
+	used := map[int]bool{}
+	out := []c18Ev{}
+	for i := 0; i < n; i++ {
+		k := r.Intn(maxK)
+		if len(hot) > 0 && r.Bool() {
+			k = Pick(r, hot)
+		}
+		if used[k] {
+			continue
+		}
+		used[k] = true
+		e := c18Ev{K: k, Edits: []c18Edit{}, Miss: []string{}}
+		switch x := r.Intn(20); {
+		case x < 5:
+			e.O = Pick(r, c18PlanOutcomes)
+		case x < 10:
+			e.O = Pick(r, c18Classes)
+		case x < 15:
+			e.Edits = edits()
+			if r.Chance(1, 6) {
+				e.O = Pick(r, append(append([]string{}, c18PlanOutcomes...), c18Classes...))
+			}
+		default:
+			switch r.Intn(4) {
+			case 0:
+				e.View = "old"
+			case 1:
+				e.View = "old0"
+			case 2:
+				e.Miss = []string{Pick(r, names)}
+			default:
+				e.View = Pick(r, []string{"old", "old0"})
+				e.Miss = []string{Pick(r, names)}
+			}
+			if r.Chance(1, 4) {
+				e.Edits = edits()
+			}
+		}
+		out = append(out, e)
+	}
+	return out
+}
+
+// c18RefBudget: how many CRDs the revision of that name may reference (see c18GenMember).
+func c18RefBudget(name string) int {
+	switch name {
+	case "prov-a-r1":
+		return 4
+	case "prov-a-r10", "prov-m0-r1":
+		return 2
+	}
+	return 1
+}
+
+func c18RoleNames(target string) []string {
+	p := "crossplane:provider:" + target + ":"
+	return []string{p + "aggregate-to-edit", p + "aggregate-to-view", p + "system"}
+}
+
+// c18GenPR draws a revision that may itself be reconciled.
+func c18GenPR(r *Rng, name, uid string, maxRefs int) c18PR {
+	t := c18PR{Name: name, UID: uid, Pkg: c18Pkgs[r.Intn(3)]}
 	if r.Chance(1, 6) {
 		t.Pkg = Pick(r, c18Pkgs)
 	}
-	switch x := r.Intn(10); {
-	case x < 7:
-		t.Family = "fam-a"
-	case x < 8:
-		t.Family = "fam-b"
-	}
+	t.Family = Pick(r, c18Families)
 	t.Paused = r.Chance(1, 25)
 	t.Deleted = r.Chance(1, 25)
-	t.Refs = c18GenRefs(r, 4, "")
+	t.Refs = c18GenRefs(r, maxRefs, "")
 	if r.Chance(2, 5) {
 		t.Requests = c18GenRules(r, 2, r.Chance(1, 5))
 		if len(t.Requests) == 0 {
 			t.Requests = []c18PRule{c18GenRule(r, false)}
 		}
 	}
+	return t
+}
+
+func c18GenMember(r *Rng, i int) c18PR {
+	m := c18PR{Name: fmt.Sprintf("prov-m%d-r1", i), UID: fmt.Sprintf("uid-m%d", i), Pkg: Pick(r, c18Pkgs)}
+	if r.Chance(1, 2) {
+		m.Pkg = c18Pkgs[r.Intn(5)]
+	}
+	m.Family = Pick(r, c18Families)
+	// sort.Slice is a stable insertion sort up to 12 elements and resources with different
+	// (plural, group) may share the sort key plural+group: all revisions that can ever coexist
+	// reference at most 4 (target) + 2 + 1 (other reconciled revisions) + 2 + 1 + 1 + 1 (members) = 12 CRDs
+	max := 1
+	if i == 0 {
+		max = 2
+	}
+	m.Refs = c18GenRefs(r, max, fmt.Sprintf("m%d.example.org", i))
+	m.Paused = r.Chance(1, 20)
+	if r.Chance(1, 10) {
+		m.Requests = c18GenRules(r, 1, false)
+	}
+	return m
+}
+
+// c18GenAllowFor: an allow-list content related to the requests (mostly covering them).
+func c18GenAllowFor(r *Rng, reqs []c18PRule) []c18PRule {
+	var a []c18PRule
+	if r.Chance(2, 3) {
+		for _, q := range reqs {
+			if r.Chance(9, 10) {
+				a = append(a, c18Widen(r, q))
+			}
+		}
+		a = append(a, c18GenRules(r, 1, false)...)
+	} else {
+		a = c18GenRules(r, 3, r.Chance(1, 5))
+	}
+	if a == nil {
+		a = []c18PRule{}
+	}
+	return a
+}
+
+// c18ReconcileEdits: what other writers do around a provider-revision reconcile.
+func c18ReconcileEdits(r *Rng, s *c18Scn, cur map[string]c18PR, target string) []c18Edit {
+	out := []c18Edit{}
+	t, hasT := cur[target]
+	for i, n := 0, 1+r.Intn(2); i < n; i++ {
+		switch x := r.Intn(20); {
+		case x < 5: // the administrator edits the allow-list role: narrower, unrelated, wider, same size
+			var reqs []c18PRule
+			if hasT {
+				reqs = t.Requests
+			}
+			rules := c18GenEarlier(r, s.Allow, reqs)
+			if r.Chance(1, 3) {
+				rules = []c18PRule{}
+			}
+			out = append(out, c18Edit{Op: "setRole", Role: &c18Role{Name: c18AllowName, Labels: []c18KV{}, Rules: rules}, Recreate: r.Chance(1, 6)})
+		case x < 6:
+			out = append(out, c18Edit{Op: "delRole", Name: c18AllowName})
+		case x < 10: // someone creates / takes over / rewrites one of the revision's roles
+			role := c18GenPreRole(r, Pick(r, c18RoleNames(target)), "uid-t")
+			if hasT && r.Bool() {
+				role.Ctrl = Pick(r, []string{t.UID, "uid-other", ""})
+			}
+			out = append(out, c18Edit{Op: "setRole", Role: &role})
+		case x < 12: // ... or deletes it (the garbage collector, an operator)
+			out = append(out, c18Edit{Op: "delRole", Name: Pick(r, c18RoleNames(target))})
+		case x < 16: // the revision itself changes: requests, references, family, pause, deletion, re-creation
+			if !hasT {
+				continue
+			}
+			p := t
+			switch r.Intn(8) {
+			case 0:
+				p.Requests = append(append([]c18PRule{}, p.Requests...), c18GenRule(r, false))
+			case 1:
+				p.Requests = []c18PRule{}
+			case 2:
+				p.Refs = c18GenRefs(r, c18RefBudget(p.Name), "")
+			case 3:
+				p.Family = Pick(r, c18Families)
+			case 4:
+				p.Paused = !p.Paused
+			case 5:
+				p.Deleted = !p.Deleted
+			case 6:
+				p.UID = p.UID + "-re" // deleted and re-created under the same name
+			default:
+				p.Pkg = Pick(r, c18Pkgs)
+			}
+			cur[target] = p
+			t = p
+			out = append(out, c18Edit{Op: "setPR", PR: &p})
+		case x < 17:
+			delete(cur, target)
+			hasT = false
+			out = append(out, c18Edit{Op: "delPR", Name: target})
+		case x < 19: // a family member appears (possibly from another org) or changes
+			m := c18GenMember(r, r.Intn(4))
+			if hasT && r.Chance(2, 3) {
+				m.Family = t.Family
+			}
+			cur[m.Name] = m
+			out = append(out, c18Edit{Op: "setPR", PR: &m})
+		default:
+			n := fmt.Sprintf("prov-m%d-r1", r.Intn(3))
+			delete(cur, n)
+			out = append(out, c18Edit{Op: "delPR", Name: n})
+		}
+	}
+	return out
+}
+
+func c18GenReconcile(r *Rng) c18Scn {
+	s := c18Scn{Kind: "reconcile", Target: "prov-a-r1"}
+	t := c18GenPR(r, "prov-a-r1", "uid-t", 4)
 	s.PRs = []c18PR{t}
+	// a second (third) revision that is reconciled by the same controller; its name extends the first
+	var others []string
+	if r.Chance(3, 5) {
+		u := c18GenPR(r, "prov-a-r10", "uid-u", 2)
+		if r.Bool() {
+			u.Family, u.Pkg = t.Family, t.Pkg
+		}
+		s.PRs = append(s.PRs, u)
+		others = append(others, u.Name)
+		if r.Chance(1, 4) {
+			v := c18GenPR(r, "prov-a", "uid-v", 1)
+			s.PRs = append(s.PRs, v)
+			others = append(others, v.Name)
+		}
+	}
 	for i, n := 0, r.Intn(4); i < n; i++ {
-		m := c18PR{Name: fmt.Sprintf("prov-m%d-r1", i), UID: fmt.Sprintf("uid-m%d", i), Pkg: Pick(r, c18Pkgs)}
-		if r.Chance(1, 2) {
-			m.Pkg = c18Pkgs[r.Intn(5)]
-		}
-		switch x := r.Intn(10); {
-		case x < 7:
-			m.Family = "fam-a"
-		case x < 8:
-			m.Family = "fam-b"
-		}
-		m.Refs = c18GenRefs(r, 2, fmt.Sprintf("m%d.example.org", i)) // at most 4+3*2 = 10 resources: sort.Slice is a stable insertion sort up to 12
-		m.Paused = r.Chance(1, 20)
-		if r.Chance(1, 10) {
-			m.Requests = c18GenRules(r, 1, false)
-		}
-		s.PRs = append(s.PRs, m)
+		s.PRs = append(s.PRs, c18GenMember(r, i))
 	}
 	switch x := r.Intn(20); {
 	case x < 12:
@@ -294,25 +542,17 @@ func c18GenReconcile(r *Rng) c18Scn {
 		s.Validator = "missing"
 	}
 	if s.Validator == "role" {
-		if r.Chance(2, 3) {
-			for _, q := range t.Requests {
-				if r.Chance(9, 10) {
-					s.Allow = append(s.Allow, c18Widen(r, q))
-				}
-			}
-			s.Allow = append(s.Allow, c18GenRules(r, 1, false)...)
-		} else {
-			s.Allow = c18GenRules(r, 3, r.Chance(1, 5))
+		reqs := t.Requests
+		if len(others) > 0 && r.Chance(1, 3) {
+			reqs = append(append([]c18PRule{}, reqs...), s.PRs[1].Requests...)
 		}
+		s.Allow = c18GenAllowFor(r, reqs)
 	}
-	if s.Validator == "role" && len(t.Requests) > 0 && r.Chance(1, 2) {
-		s.Warm = true
-		s.WarmAllow = c18GenWarm(r, s.Allow, t.Requests)
-	}
-	prefix := "crossplane:provider:" + t.Name + ":"
-	for _, suf := range []string{"aggregate-to-edit", "aggregate-to-view", "system"} {
-		if r.Chance(1, 4) {
-			s.Roles = append(s.Roles, c18GenPreRole(r, prefix+suf, t.UID))
+	for _, n := range append([]string{t.Name}, others...) {
+		for _, rn := range c18RoleNames(n) {
+			if r.Chance(1, 5) {
+				s.Roles = append(s.Roles, c18GenPreRole(r, rn, "uid-t"))
+			}
 		}
 	}
 	if r.Chance(1, 4) {
@@ -324,12 +564,95 @@ func c18GenReconcile(r *Rng) c18Scn {
 	if r.Chance(1, 30) {
 		s.Target = "ghost"
 	}
-	s.Faults = c18GenFaults(r, 9)
+	cur := map[string]c18PR{}
+	for _, p := range s.PRs {
+		cur[p.Name] = p
+	}
+	names := []string{c18AllowName, t.Name, "prov-m0-r1", "prov-m1-r1"}
+	names = append(names, c18RoleNames(t.Name)...)
+	names = append(names, others...)
+	rounds := 1 + r.Intn(4)
+	for i := 0; i < rounds; i++ {
+		rd := c18Round{Target: s.Target, Pre: []c18Edit{}}
+		if i > 0 || r.Chance(1, 4) {
+			switch x := r.Intn(10); {
+			case x < 4 && len(others) > 0:
+				rd.Target = Pick(r, others)
+			case x < 5:
+				rd.Target = Pick(r, []string{"prov-m0-r1", "ghost"})
+			}
+		}
+		if i > 0 && r.Chance(1, 2) || r.Chance(1, 10) {
+			rd.Pre = c18ReconcileEdits(r, &s, cur, rd.Target)
+		}
+		// expected call layout: getPR, [listPRs], [get allow], then Get + Create/Update per role
+		base := 1
+		if p, ok := cur[rd.Target]; ok && p.Family != "" {
+			base++
+		}
+		val := base
+		if s.Validator != "none" {
+			base++
+		}
+		hot := []int{val, base, base + 1, base + 2, base + 3, base + 4, base + 5}
+		tgt := rd.Target
+		rd.Evs = c18GenEvs(r, 10, hot, func() []c18Edit { return c18ReconcileEdits(r, &s, cur, tgt) }, append(names, c18RoleNames(tgt)...))
+		// the allow-list changes under a validator that has served earlier reconciles: the
+		// administrator narrows / empties / deletes it between two reconciles, the revision's
+		// roles have to be written (again), and the validator's own read of the role is
+		// disturbed (error class, fault, stale or missing in the cache) or not
+		if i > 0 && s.Validator != "none" && r.Chance(1, 4) {
+			if p, ok := cur[tgt]; ok {
+				var rules []c18PRule
+				switch r.Intn(3) {
+				case 0:
+					rules = []c18PRule{}
+				case 1:
+					rules = c18GenRules(r, 2, false)
+				default:
+					rules = c18GenEarlier(r, s.Allow, p.Requests)
+				}
+				if r.Chance(1, 5) {
+					rd.Pre = append(rd.Pre, c18Edit{Op: "delRole", Name: c18AllowName})
+				} else {
+					rd.Pre = append(rd.Pre, c18Edit{Op: "setRole", Role: &c18Role{Name: c18AllowName, Labels: []c18KV{}, Rules: rules}})
+				}
+				for _, rn := range c18RoleNames(tgt) {
+					if r.Chance(2, 3) {
+						rd.Pre = append(rd.Pre, c18Edit{Op: "delRole", Name: rn})
+					}
+				}
+				e := c18Ev{K: val, Edits: []c18Edit{}, Miss: []string{}}
+				switch r.Intn(6) {
+				case 0:
+					e.O = Pick(r, c18Classes)
+				case 1:
+					e.O = Pick(r, []string{"fail", "conflict"})
+				case 2:
+					e.View = Pick(r, []string{"old", "old0"})
+				case 3:
+					e.Miss = []string{c18AllowName}
+				}
+				if e.O != "" || e.View != "" || len(e.Miss) > 0 {
+					evs := []c18Ev{e}
+					for _, x := range rd.Evs {
+						if x.K != val {
+							evs = append(evs, x)
+						}
+					}
+					rd.Evs = evs
+				}
+			}
+		}
+		s.Rounds = append(s.Rounds, rd)
+	}
 	return s
 }
 
-func c18GenXRD(r *Rng) c18Scn {
-	x := c18XRD{Name: "xthings.example.org", UID: "uid-x", Group: Pick(r, []string{"example.org", "a.b", "acme.example.org"}),
+var c18XRDNames = []string{"xthings.example.org", "xthings.example.organic", "xa.example.org"}
+
+func c18GenOneXRD(r *Rng, name, uid string) c18XRD {
+	x := c18XRD{Name: name, UID: uid, Group: Pick(r, []string{"example.org", "a.b", "acme.example.org"}),
 		Plural: Pick(r, []string{"xthings", "xa", "widgets"}), HasClaim: r.Bool()}
 	if x.HasClaim {
 		x.Claim = Pick(r, []string{"things", "a", "gadgets"})
@@ -347,11 +670,81 @@ func c18GenXRD(r *Rng) c18Scn {
 		}
 	}
 	x.Deleted = r.Chance(1, 20)
-	s := c18Scn{Kind: "xrd", Target: x.Name, XRDs: []c18XRD{x}, Validator: "none"}
-	prefix := "crossplane:composite:" + x.Name + ":"
-	for _, suf := range []string{"aggregate-to-crossplane", "aggregate-to-edit", "aggregate-to-view", "aggregate-to-browse"} {
-		if r.Chance(1, 4) {
-			s.Roles = append(s.Roles, c18GenPreRole(r, prefix+suf, x.UID))
+	return x
+}
+
+func c18XRDRoleNames(name string) []string {
+	p := "crossplane:composite:" + name + ":"
+	return []string{p + "aggregate-to-crossplane", p + "aggregate-to-edit", p + "aggregate-to-view", p + "aggregate-to-browse"}
+}
+
+func c18XRDEdits(r *Rng, cur map[string]c18XRD, target string) []c18Edit {
+	out := []c18Edit{}
+	x, has := cur[target]
+	for i, n := 0, 1+r.Intn(2); i < n; i++ {
+		switch k := r.Intn(10); {
+		case k < 4:
+			role := c18GenPreRole(r, Pick(r, c18XRDRoleNames(target)), "uid-x0")
+			if has && r.Bool() {
+				role.Ctrl = Pick(r, []string{x.UID, "uid-other", ""})
+			}
+			out = append(out, c18Edit{Op: "setRole", Role: &role})
+		case k < 5:
+			out = append(out, c18Edit{Op: "delRole", Name: Pick(r, c18XRDRoleNames(target))})
+		case k < 9:
+			if !has {
+				continue
+			}
+			d := x
+			switch r.Intn(5) {
+			case 0:
+				d.HasClaim, d.Claim = !d.HasClaim, ""
+				if d.HasClaim {
+					d.Claim = Pick(r, []string{"things", "a", "gadgets"})
+				}
+			case 1:
+				d.Group = Pick(r, []string{"example.org", "a.b", "acme.example.org"})
+			case 2:
+				d.Plural = Pick(r, []string{"xthings", "xa", "widgets"})
+			case 3:
+				d.Deleted = !d.Deleted
+			default:
+				d.UID = d.UID + "-re"
+			}
+			cur[target], x = d, d
+			out = append(out, c18Edit{Op: "setXRD", XRD: &d})
+		default:
+			delete(cur, target)
+			has = false
+			out = append(out, c18Edit{Op: "delXRD", Name: target})
+		}
+	}
+	return out
+}
+
+func c18GenXRD(r *Rng) c18Scn {
+	s := c18Scn{Kind: "xrd", Target: c18XRDNames[0], Validator: "none"}
+	n := 1
+	if r.Chance(3, 5) {
+		n = 2 + r.Intn(2)
+	}
+	cur := map[string]c18XRD{}
+	names := []string{}
+	for i := 0; i < n; i++ {
+		x := c18GenOneXRD(r, c18XRDNames[i], fmt.Sprintf("uid-x%d", i))
+		if i > 0 && r.Bool() { // same group as the first, names overlapping with it
+			x.Group = s.XRDs[0].Group
+			if r.Bool() && s.XRDs[0].HasClaim {
+				x.Plural = s.XRDs[0].Claim
+			}
+		}
+		s.XRDs = append(s.XRDs, x)
+		cur[x.Name] = x
+		names = append(names, x.Name)
+		for _, rn := range c18XRDRoleNames(x.Name) {
+			if r.Chance(1, 5) {
+				s.Roles = append(s.Roles, c18GenPreRole(r, rn, x.UID))
+			}
 		}
 	}
 	if r.Chance(1, 5) {
@@ -360,39 +753,106 @@ func c18GenXRD(r *Rng) c18Scn {
 	if r.Chance(1, 30) {
 		s.Target = "ghost"
 	}
-	s.Faults = c18GenFaults(r, 9)
+	rounds := 1 + r.Intn(4)
+	for i := 0; i < rounds; i++ {
+		rd := c18Round{Target: s.Target, Pre: []c18Edit{}}
+		if i > 0 && r.Bool() {
+			rd.Target = Pick(r, names)
+		}
+		if i > 0 && r.Chance(1, 2) || r.Chance(1, 10) {
+			rd.Pre = c18XRDEdits(r, cur, rd.Target)
+		}
+		tgt := rd.Target
+		rd.Evs = c18GenEvs(r, 10, []int{0, 1, 2, 3, 4, 5, 6, 7, 8}, func() []c18Edit { return c18XRDEdits(r, cur, tgt) }, append(append([]string{}, names...), c18XRDRoleNames(tgt)...))
+		s.Rounds = append(s.Rounds, rd)
+	}
 	return s
+}
+
+func c18GenDeploy(r *Rng, i int) c18Deploy {
+	d := c18Deploy{NS: Pick(r, []string{"crossplane-system", "crossplane-system", "other"}), Name: fmt.Sprintf("d%d", i), SA: Pick(r, []string{"sa-a", "sa-b", "default", ""}), Owners: []string{}}
+	for j, k := 0, r.Intn(3); j < k; j++ {
+		// uid-t-old: an earlier incarnation of the target (same NAME in the owner reference, another UID)
+		d.Owners = append(d.Owners, Pick(r, []string{"uid-t", "uid-t", "uid-u", "uid-t-old", "uid-m0", "uid-other"}))
+	}
+	return d
+}
+
+func c18BindingEdits(r *Rng, s *c18Scn, cur map[string]c18PR, target string) []c18Edit {
+	out := []c18Edit{}
+	n := "crossplane:provider:" + target + ":system"
+	t, has := cur[target]
+	for i, k := 0, 1+r.Intn(2); i < k; i++ {
+		switch x := r.Intn(10); {
+		case x < 3: // someone creates / takes over the binding
+			b := c18Binding{Name: n, RoleRef: Pick(r, []string{n, n, "cluster-admin"}), Subjects: []c18Subject{}, Ctrl: Pick(r, []string{"uid-t", "uid-u", "uid-other", ""})}
+			for j, m := 0, r.Intn(3); j < m; j++ {
+				b.Subjects = append(b.Subjects, c18Subject{NS: Pick(r, []string{"crossplane-system", "other"}), Name: Pick(r, []string{"sa-a", "sa-b", "default"})})
+			}
+			out = append(out, c18Edit{Op: "setBinding", Binding: &b})
+		case x < 4:
+			out = append(out, c18Edit{Op: "delBinding", Name: n})
+		case x < 7: // deployments come, go, change owner or service account
+			d := c18GenDeploy(r, r.Intn(5))
+			out = append(out, c18Edit{Op: "setDeploy", Deploy: &d})
+		case x < 8:
+			d := c18GenDeploy(r, r.Intn(5))
+			out = append(out, c18Edit{Op: "delDeploy", NS: d.NS, Name: d.Name})
+		default:
+			if !has {
+				continue
+			}
+			p := t
+			switch r.Intn(3) {
+			case 0:
+				p.Paused = !p.Paused
+			case 1:
+				p.Deleted = !p.Deleted
+			default:
+				p.UID = p.UID + "-old" // what the deployments of the earlier incarnation point at
+				if strings.HasSuffix(t.UID, "-old") {
+					p.UID = strings.TrimSuffix(t.UID, "-old")
+				}
+			}
+			cur[target], t = p, p
+			out = append(out, c18Edit{Op: "setPR", PR: &p})
+		}
+	}
+	return out
 }
 
 func c18GenBinding(r *Rng) c18Scn {
 	s := c18Scn{Kind: "binding", Target: "prov-a-r1", Validator: "none"}
 	t := c18PR{Name: "prov-a-r1", UID: "uid-t", Pkg: c18Pkgs[0], Paused: r.Chance(1, 25), Deleted: r.Chance(1, 25)}
-	s.PRs = []c18PR{t, {Name: "prov-m0-r1", UID: "uid-m0", Pkg: c18Pkgs[0]}}
-	for i, n := 0, r.Intn(5); i < n; i++ {
-		d := c18Deploy{NS: Pick(r, []string{"crossplane-system", "crossplane-system", "other"}), Name: fmt.Sprintf("d%d", i), SA: Pick(r, []string{"sa-a", "sa-b", "default", ""}), Owners: []string{}}
-		for j, k := 0, r.Intn(3); j < k; j++ {
-			d.Owners = append(d.Owners, Pick(r, []string{"uid-t", "uid-t", "uid-m0", "uid-other"}))
-		}
-		s.Deploys = append(s.Deploys, d)
+	u := c18PR{Name: "prov-a-r10", UID: "uid-u", Pkg: c18Pkgs[0], Paused: r.Chance(1, 25)}
+	s.PRs = []c18PR{t, u, {Name: "prov-m0-r1", UID: "uid-m0", Pkg: c18Pkgs[0]}}
+	cur := map[string]c18PR{}
+	for _, p := range s.PRs {
+		cur[p.Name] = p
 	}
-	n := "crossplane:provider:" + t.Name + ":system"
-	if r.Chance(1, 3) {
-		b := c18Binding{Name: n, RoleRef: n, Subjects: []c18Subject{}}
-		if r.Chance(1, 4) {
-			b.RoleRef = "cluster-admin"
+	for i, n := 0, r.Intn(5); i < n; i++ {
+		s.Deploys = append(s.Deploys, c18GenDeploy(r, i))
+	}
+	for _, p := range []c18PR{t, u} {
+		n := "crossplane:provider:" + p.Name + ":system"
+		if r.Chance(1, 3) {
+			b := c18Binding{Name: n, RoleRef: n, Subjects: []c18Subject{}}
+			if r.Chance(1, 4) {
+				b.RoleRef = "cluster-admin"
+			}
+			switch r.Intn(4) {
+			case 0, 1:
+				b.Ctrl = p.UID
+			case 2:
+				b.Ctrl = ""
+			default:
+				b.Ctrl = "uid-other"
+			}
+			for j, k := 0, r.Intn(3); j < k; j++ {
+				b.Subjects = append(b.Subjects, c18Subject{NS: Pick(r, []string{"crossplane-system", "other"}), Name: Pick(r, []string{"sa-a", "sa-b", "default"})})
+			}
+			s.Bindings = append(s.Bindings, b)
 		}
-		switch r.Intn(4) {
-		case 0, 1:
-			b.Ctrl = t.UID
-		case 2:
-			b.Ctrl = ""
-		default:
-			b.Ctrl = "uid-other"
-		}
-		for j, k := 0, r.Intn(3); j < k; j++ {
-			b.Subjects = append(b.Subjects, c18Subject{NS: Pick(r, []string{"crossplane-system", "other"}), Name: Pick(r, []string{"sa-a", "sa-b", "default"})})
-		}
-		s.Bindings = append(s.Bindings, b)
 	}
 	if r.Chance(1, 5) {
 		s.Bindings = append(s.Bindings, c18Binding{Name: "unrelated", RoleRef: "cluster-admin", Subjects: []c18Subject{{NS: "kube-system", Name: "admin"}}, Ctrl: "uid-other"})
@@ -400,7 +860,20 @@ func c18GenBinding(r *Rng) c18Scn {
 	if r.Chance(1, 30) {
 		s.Target = "ghost"
 	}
-	s.Faults = c18GenFaults(r, 5)
+	rounds := 1 + r.Intn(4)
+	for i := 0; i < rounds; i++ {
+		rd := c18Round{Target: s.Target, Pre: []c18Edit{}}
+		if i > 0 && r.Chance(2, 5) {
+			rd.Target = Pick(r, []string{"prov-a-r10", "prov-a-r10", "prov-m0-r1", "ghost"})
+		}
+		if i > 0 && r.Chance(1, 2) || r.Chance(1, 10) {
+			rd.Pre = c18BindingEdits(r, &s, cur, rd.Target)
+		}
+		tgt := rd.Target
+		names := []string{tgt, "crossplane:provider:" + tgt + ":system", "d0", "d1", "d2"}
+		rd.Evs = c18GenEvs(r, 5, []int{1, 2, 3}, func() []c18Edit { return c18BindingEdits(r, &s, cur, tgt) }, names)
+		s.Rounds = append(s.Rounds, rd)
+	}
 	return s
 }
 
